@@ -44,18 +44,20 @@ def rust_for(c):
     def body(name, macro):
         b = []
         b.append("let s: i64 = %s;" % ssum)
+        # a free function that has the very name of the recursion macro (macros and functions live in different namespaces)
+        b.append("let hv: i64 = rec(a1);")
         base_mut = " ".join("*c%d += 1;" % i for i in muts)
         if ret:
             b.append("if a1 <= 0 { %s return s + %s; }" % (base_mut, args[-1]))
         else:
             b.append("if a1 <= 0 { %s return; }" % base_mut)
         for i in muts:
-            b.append("*c%d = 2 * *c%d + a1 + s;" % (i, i))
+            b.append("*c%d = 2 * *c%d + a1 + s + hv;" % (i, i))
         b.append("let first: i64 = %s;" % first)
         if ret:
             b.append("let r1 = %s;" % call(name, rot, macro))
             b.append("let r2 = if a1 %% 2 == 0 { %s } else { 0 };" % call(name, dec, macro))
-            b.append("r1 + 3 * r2 + a1 * first")
+            b.append("r1 + 3 * r2 + a1 * first + hv")
         else:
             b.append("%s;" % call(name, rot, macro))
             b.append("if a1 %% 2 == 0 { %s; }" % call(name, dec, macro))
@@ -69,6 +71,7 @@ def rust_for(c):
     lines.append("#[test]")
     lines.append("#[allow(unused_mut, unused_variables, unused_assignments, clippy::all)]")
     lines.append("fn %s() {" % shape_name(c))
+    lines.append("    fn rec(x: i64) -> i64 { x % 3 }")
     # the hand-written equivalent
     fn_caps = "".join(", c%d: %s" % (i, "&i64" if caps[i] == "ref" else "&mut i64") for i in range(k))
     lines.append("    fn explicit(%s%s)%s {" % (argdecl, fn_caps, rty))
@@ -127,7 +130,9 @@ def run(ctx):
     remaining = list(cases)
     failing_compile = {}
     results = {}
-    for attempt in range(4):
+    for attempt in range(10):
+        if not remaining:
+            break
         src = ["// generated by bin/comp/lambda.py from spec/lambda/RecLambda.tla -- do not edit", ""]
         line_of = []
         for c in remaining:
@@ -155,6 +160,15 @@ def run(ctx):
                     ctx.violations.append({"key": "lambda: closure differs from explicit recursion [%s]" % shape_key(c), "stage": "run", "kind": "program",
                                            "component": "lambda", "detail": {"case": c, "shape": nm, "test_output": msgs.get(nm, ""), "program": rust_for(c)}})
             break
+        # a generated program that dies (unbounded recursion): attribute to its test thread, drop it and run the rest again
+        died = set(re.findall(r"thread '(shape_\w+)'[^\n]* has overflowed its stack", out))
+        if died and not re.search(r"--> tests/shapes\.rs:(\d+):", out):
+            for nm in died:
+                c = [x for x in cases if shape_name(x) == nm][0]
+                ctx.violations.append({"key": "lambda: closure differs from explicit recursion [%s]" % shape_key(c), "stage": "run", "kind": "program",
+                                       "component": "lambda", "detail": {"case": c, "shape": nm, "test_output": "stack overflow (unbounded recursion)", "program": rust_for(c)}})
+            remaining = [c for c in remaining if shape_name(c) not in died]
+            continue
         # compile error: attribute by source line, drop those shapes and try again
         bad = set()
         for m in re.finditer(r"--> tests/shapes\.rs:(\d+):", out):
